@@ -1,6 +1,6 @@
 (* C04: closing pays exactly the position's equity; bad debt cannot be cashed out.  Statements only. *)
 From MP.Model Require Import Prelude U128 SInt Feed Vamm VammOps Token World Engine Runtime.
-From MP.Proofs Require Import Tactics SIntFacts EngineArith CloseFacts CloseTxFacts.
+From MP.Proofs Require Import Tactics SIntFacts EngineArith CloseFacts CloseTxFacts VammFacts FundFloorFacts.
 From MP.Model Require Import Scenario.
 
 (* the margin arithmetic in mathematical integers: funding owed = (cumulative fraction - checkpoint)
@@ -84,4 +84,64 @@ Definition c04_example : bool :=
   | Err _ => false
   end.
 Example C04_nonvacuous : c04_example = true.
+Proof. vm_compute. reflexivity. Qed.
+
+(* END TO END, third clause.  In every trader-initiated transaction - OpenPosition on any path (new, increase,
+   reduce, reversal with or without re-opening), ClosePosition (whole or partial), DepositMargin, WithdrawMargin -
+   the insurance fund's balance falls by no more than the prepaid bad debt the engine records in that same
+   transaction.  Proved through the whole message tree with the potential
+   fund balance + recorded prepaid bad debt - draws still queued, which never decreases (dispatch_floor).
+   Side conditions: fee ratios and decimals of the vAMMs are non-negative / positive (fees_ok), the trader is not the
+   fund, stored notionals and sizes are non-negative magnitudes. *)
+Theorem C04_open_position_tx_draw_recorded : forall f w t v s m l lim funds w',
+  exec_op f w (OEngine t (EOpenPosition v s m l lim) funds) = Ok w' ->
+  (fees_ok w /\ t <> A_IFUND /\ 0 <= p_notional (read_position (w_eng w) v t)) ->
+  0 <= m -> 0 <= l -> 0 < e_dec (ec (w_eng w)) ->
+  bal (w_tok w) A_IFUND - bal (w_tok w') A_IFUND <= e_bad_debt (es (w_eng w')) - e_bad_debt (es (w_eng w)).
+Proof. exact open_position_tx_draw_recorded. Qed.
+Print Assumptions C04_open_position_tx_draw_recorded.
+
+Theorem C04_close_position_tx_draw_recorded : forall f w t v lim funds w' vm,
+  exec_op f w (OEngine t (EClosePosition v lim) funds) = Ok w' ->
+  (fees_ok w /\ t <> A_IFUND /\ 0 <= p_notional (read_position (w_eng w) v t)) ->
+  get_vamm w v = Ok vm -> wfv vm ->
+  0 <= sval (p_size (read_position (w_eng w) v t)) -> 0 <= e_plr (ec (w_eng w)) -> 0 < e_dec (ec (w_eng w)) ->
+  bal (w_tok w) A_IFUND - bal (w_tok w') A_IFUND <= e_bad_debt (es (w_eng w')) - e_bad_debt (es (w_eng w)).
+Proof. exact close_position_tx_draw_recorded. Qed.
+Print Assumptions C04_close_position_tx_draw_recorded.
+
+Theorem C04_deposit_margin_tx_draw_recorded : forall f w t v amount funds w',
+  exec_op f w (OEngine t (EDepositMargin v amount) funds) = Ok w' -> t <> A_IFUND ->
+  bal (w_tok w) A_IFUND - bal (w_tok w') A_IFUND <= e_bad_debt (es (w_eng w')) - e_bad_debt (es (w_eng w)).
+Proof. exact deposit_margin_tx_draw_recorded. Qed.
+Print Assumptions C04_deposit_margin_tx_draw_recorded.
+
+Theorem C04_withdraw_margin_tx_draw_recorded : forall f w t v amount funds w',
+  exec_op f w (OEngine t (EWithdrawMargin v amount) funds) = Ok w' -> t <> A_IFUND ->
+  bal (w_tok w) A_IFUND - bal (w_tok w') A_IFUND <= e_bad_debt (es (w_eng w')) - e_bad_debt (es (w_eng w)).
+Proof. exact withdraw_margin_tx_draw_recorded. Qed.
+Print Assumptions C04_withdraw_margin_tx_draw_recorded.
+
+(* non-vacuity: a close that does draw on the fund.  Price band off; trader 23 opens a 5x long, trader 24 a larger
+   one on top; 23 closes in profit and its payout exceeds the vault, so the fund is drawn on; the draw equals the
+   prepaid bad debt recorded by that transaction, and the hypotheses of the close theorem hold in that state *)
+Definition c04_draw_example : bool :=
+  match scenario with
+  | Ok w0 =>
+      let w := run w0 [OVamm 1 11 (WUpdateConfig (mkVupdate None None None None (Some 0) None None None None));
+                       OToken 1 (TMint 23 1000000000000); OToken 23 (TIncreaseAllowance 1000000000000);
+                       OToken 1 (TMint 24 1000000000000); OToken 24 (TIncreaseAllowance 1000000000000);
+                       OEngine 23 (EOpenPosition 11 Buy 25000000 5000000 0) 0; OBlock 10 1;
+                       OEngine 24 (EOpenPosition 11 Buy 80000000 5000000 0) 0; OBlock 10 1] in
+      match get_vamm w 11, exec_op (-1) w (OEngine 23 (EClosePosition 11 0) 0) with
+      | Ok vm, Ok w' =>
+          let drop := bal (w_tok w) A_IFUND - bal (w_tok w') A_IFUND in
+          let rec := e_bad_debt (es (w_eng w')) - e_bad_debt (es (w_eng w)) in
+          (0 <? drop) && (drop =? rec) &&
+          (0 <=? p_notional (read_position (w_eng w) 11 23)) && (0 <? v_dec (vc vm)) && (0 <=? v_q (vs vm)) && (0 <=? v_b (vs vm))
+      | _, _ => false
+      end
+  | Err _ => false
+  end.
+Example C04_draw_recorded_nonvacuous : c04_draw_example = true.
 Proof. vm_compute. reflexivity. Qed.
